@@ -275,6 +275,11 @@ def run(chk):
             # the Cause text is outside every property (and masked here), so the model cannot tell the verdict
             chk.dist("smalllimit.cause_text_decides.not_compared")
             continue
+        if enginerun.oracle_order_ambiguous(m):
+            # concurrent branches put the same question to the same worker at different instants: which of them gets the
+            # worker's n-th answer is the arrival order, which the (branch by branch) reference semantics does not have
+            chk.dist("oracle_order.not_compared")
+            continue
         if m.get("multiFail"):
             # several branches of one fan-out fail: which one fails first (and hence whether the failure is retried /
             # caught) depends on timing, which the reference semantics does not model — C06 covers these families
@@ -292,10 +297,11 @@ def run(chk):
             continue
         # --- the history: every StateEntered / StateExited the engine wrote, and the number of task requests, against
         # the log of the reference semantics
-        mode, hp, nev = enginerun.compare_history(c["machine"], m, r.history, len(r.requests))
+        mode, hp, nev = enginerun.compare_history(c["machine"], m, r.history, len(r.requests), timed=True,
+                                                  request_instants=[q["t"] for q in r.requests])
         chk.dist("history.%s" % mode)
         chk.dist("history.%s.events" % mode, nev)
-        nmode, np_ = enginerun.compare_notifications(m, [n["body"]["detail"] for n in r.notifications], c["input"])
+        nmode, np_ = enginerun.compare_notifications(m, [n["body"]["detail"] for n in r.notifications], c["input"], timed=True)
         chk.dist("notifications.%s" % nmode)
         hp = hp + np_
         if hp:
